@@ -15,4 +15,10 @@ iface (s Span) NewChild(name string) (c Span)
   trusted
   pure
   ensures c != nil
+
+// injects the b3 trace header into the outgoing request: only its header map changes
+iface (s Span) InjectHTTP(r *http.Request)
+  trusted
+  requires r != nil
+  modifies allof("map<string,[]string>#dom"), allof("map<string,[]string>#card"), allof("map<string,[]string>#val#arr"), allof("map<string,[]string>#val#len"), allof("map<string,[]string>#val#cap"), allof("elem<string>")
 @*/
